@@ -36,8 +36,9 @@ import numpy as np  # noqa: E402
 import proto  # noqa: E402
 
 LEAN_DIR = os.path.join(ROOT, "lean")
-EVID_DIR = os.path.join(ROOT, "evidence")
-REPLAY_DIR = os.path.join(ROOT, "replays")
+# the seeded-change runner redirects both so that a run on a changed copy never overwrites the evidence of the real tree
+EVID_DIR = os.environ.get("VERIF_EVIDENCE_DIR") or os.path.join(ROOT, "evidence")
+REPLAY_DIR = os.environ.get("VERIF_REPLAY_DIR") or os.path.join(ROOT, "replays")
 CORPUS_DIR = os.path.join(HERE, "corpus")
 ALLOWED_AXIOMS = {"propext", "Classical.choice", "Quot.sound"}
 FORBIDDEN = re.compile(r"\bsorry\b|\badmit\b|^\s*axiom\s|native_decide|bv_decide|implemented_by|"
